@@ -47,6 +47,20 @@ def build(order, states, solver=None, N=2):
     finally:
         use_airfoil(None)
     sc._impingement_threshold = -np.inf
+    # position-dependent atmosphere: density, viscosity and speed of sound are uninterpreted functions of the Earth-fixed position, so that
+    # "each aircraft sees its own local atmosphere" is visible (a value sampled at another aircraft's position is a different symbol)
+    def field(tag):
+        def get(pos):
+            c = ctx()
+            a = np.asarray(pos, dtype=object)
+            if a.ndim == 1:
+                return SR(c.atom("atm_" + tag, [simp(zexpr(SR(x))) for x in a]))
+            out = np.empty(a.shape[0], dtype=object)
+            for i in range(a.shape[0]):
+                out[i] = SR(c.atom("atm_" + tag, [simp(zexpr(SR(x))) for x in a[i]]))
+            return wrap(out)
+        return get
+    sc._get_density, sc._get_viscosity, sc._get_sos = field("rho"), field("nu"), field("a")
     for nm in order:
         ap, st = sc._airplanes[nm], states[nm]
         ap.q = wrap(np.array(st["q"], dtype=object))
